@@ -180,6 +180,18 @@ def run_path(h, cfg):
     # summary over a node subset
     sub = r.nodes[:max(1, len(r.nodes) - 1)]
     st, ss = h.call(sim.summary, sub)
+    # ... which must not disturb what summary() / t() / S() / I() / R() report for the whole population afterwards
+    st2, again = h.call(sim.summary)
+    if st2 == 'exc':
+        h.fail('summary-unaffected-by-subset-query:' + type(again).__name__, {'exception': repr(again)[:200]})
+    else:
+        t2 = list(again[0])
+        same2 = len(t2) == len(st_) and all(int(a) == int(b) for k in names[1:] for a, b in zip(again[1][k], D[k])) and len(list(sim.t())) == len(st_) \
+            and all(int(a) == int(b) for a, b in zip(sim.S(), D['S']))
+        if same2:
+            h.require('summary-unaffected-by-subset-query', AND(True, *[EQ(a, b) for a, b in zip(t2, st_)]), None)
+        else:
+            h.fail('summary-unaffected-by-subset-query', {'before': {k: [int(x) for x in D[k]] for k in names[1:]}, 'after': {k: [int(x) for x in again[1][k]] for k in names[1:]}})
     if st == 'exc':
         h.fail('subset-summary:' + type(ss).__name__, {'exception': repr(ss)[:200]})
     else:
